@@ -5,6 +5,7 @@ from .flow import FlowCx, callee_name, find_aggregates, return_table
 from . import common
 
 EXPLANATION = (
+    "(R10) every two-argument Value comparator compares its arms in one orientation (left operand from the first parameter), so it is antisymmetric across type pairs. "
     "Decides sibling-agreement clauses on the MIR of the value wrappers and codecs: (R1) a wrapper whose Hash feeds "
     "the enum discriminant has no Eq arm that can be true across variants; (R2) a wrapper whose Hash uses the bit "
     "pattern of a float does not compare floats with `==` in its own Eq; (R3) Ord and Eq of the orderable wrapper "
@@ -25,6 +26,7 @@ def _variant_of(facts, param):
 
 def run(ctx):
     P = ctx.program()
+    comparator_orientation(ctx, P, "R10")
     wrappers = {}
     for nm in ("HashableValue", "OrderableValue", "OrderedFloat64"):
         h = P.method("types::value::" + nm, "Hash", "hash")
@@ -460,3 +462,43 @@ def serde_complete(ctx, P, rule, types):
                 what = "variants read (unit, newtype, struct/tuple) = %s, declared %s" % (got, (unit, newt, rest))
             ctx.ob(rule, "%s#deserialize-complete[%s]" % (short, f.id.split("::")[-1].split("#")[0]), ok,
                    what="the Deserialize impl of %s does not read every field / variant (%s)" % (short, what), where=f.loc())
+
+
+def comparator_orientation(ctx, P, rule):
+    """A two-argument value comparator `fn(a, b) -> Ordering` must be antisymmetric: cmp(a, b) is the reverse of
+    cmp(b, a). It compares per type pair in separate match arms; if one arm compares (b, a) while the others compare
+    (a, b), mixed pairs - Float64 against Int64, say - get the same answer in both directions and the sort order is not
+    an order any more. Every comparison call of such a function takes its left operand from the first parameter and its
+    right operand from the second (or all of them the other way round)."""
+    from .flow import FlowCx, callee_name
+    n = 0
+    for f in sorted(P.fns.values(), key=lambda f: f.id):
+        if f.kind == "closure" or f.argc != 2 or "::tests::" in f.id or not f.id.startswith(("grafeo_core::", "grafeo_common::", "grafeo_engine::", "<grafeo_")):
+            continue
+        t1, t2, rt = f.local_ty(1), f.local_ty(2), f.local_ty(0)
+        if "types::value::Value" not in t1 or t1 != t2 or "cmp::Ordering" not in rt:
+            continue
+        fx = FlowCx(P, f)
+        orient = {}
+        for bi, t in f.calls():
+            nm = (t.get("f") or callee_name(t)).split("::")[-1]
+            if nm not in ("cmp", "partial_cmp", "total_cmp") and not nm.startswith("compare"):
+                continue
+            if len(t["args"]) != 2:
+                continue
+            a, b = fx.tags(t["args"][0]), fx.tags(t["args"][1])
+            l1, l2 = "param:1" in a, "param:2" in a
+            r1, r2 = "param:1" in b, "param:2" in b
+            if l1 and r2 and not l2 and not r1:
+                orient.setdefault("ab", []).append(t["line"])
+            elif l2 and r1 and not l1 and not r2:
+                orient.setdefault("ba", []).append(t["line"])
+        if sum(len(v) for v in orient.values()) < 2:
+            continue
+        n += 1
+        minority = min(orient.values(), key=len) if len(orient) > 1 else []
+        ctx.ob(rule, "%s#one-orientation" % short_id(f.id), len(orient) == 1,
+               what="%s compares (a, b) in some arms and (b, a) in others: for the type pairs of the reversed arm cmp(a, b) and cmp(b, a) "
+                    "agree instead of being opposite, so sorting a column that mixes those types depends on arrival order"
+                    % short_id(f.id), where=f.loc(minority[0] if minority else None))
+    ctx.floor(rule, n, 2, "two-argument value comparators with several comparison arms")
